@@ -56,21 +56,37 @@ def queries(tier):
         qs.append(Q('bitwriter_m%d' % m, 'h_bits.c', {'MODE': 0, 'M': m}, unwind=m + 20, desc='BitWriter: %d symbolic bits, optional truncate(t) with any t: MSB-first packing, zero tail, size()' % m, bounds='%d bits, t any 64-bit value' % m))
     for m, t, m2 in ([(5, 3, 4), (9, 8, 8), (16, 11, 3)] if quick else [(a, t, b) for a in (1, 5, 8, 9, 13, 16, 20) for t in sorted(set([0, a // 2, max(a - 1, 0), a, (a // 8) * 8])) for b in (1, 3, 8, 11)]):
         qs.append(Q('bitwriter_trunc_m%d_t%d_%d' % (m, t, m2), 'h_bits.c', {'MODE': 1, 'M': m, 'T': t, 'M2': m2}, unwind=m + m2 + 20, desc='BitWriter: %d bits, truncate(%d), %d more bits: packing continues at bit %d' % (m, t, m2, t), bounds='bits symbolic'))
-    for nb, mx in ([(4, 16)] if quick else [(1, 8), (4, 16), (6, 32), (12, 64)]):
+    for nb, mx in ([(4, 16)] if quick else [(1, 8), (4, 16), (6, 32), (9, 64)]):
         qs.append(Q('bitreader_n%d_s%d' % (nb, mx), 'h_bits.c', {'MODE': 2, 'NBYTES': nb, 'MAXSZ': mx}, unwind=max(mx, nb) + 4, timeout=600,
                     desc='BitReader over %d symbolic bytes: go/read/read/pread with sizes <= %d at any bit offset: MSB-first values, cursor arithmetic' % (nb, mx), bounds='reads inside the data only'))
     for m in ([3, 12] if quick else [0, 1, 8, 9, 17, 24, 40, 64]):
         qs.append(Q('bit_roundtrip_m%d' % m, 'h_bits.c', {'MODE': 3, 'M': m}, unwind=m + 4, desc='BitWriter -> BitReader round trip of %d bits' % m, bounds='%d symbolic bits' % m))
     # harness 3: sequences (operation kinds are the cell, everything else symbolic)
+    # (kinds, PO) ; PO = -1: positional-write offset symbolic, 0..4: offset cell (see h_seq.c)
     if quick:
-        seqs = [(0, 1), (6, 2), (5, 7, 0), (3, 7), (4, 10, 8), (1, 6, 7, 2), (9, 0)]
+        seqs = [((0, 1), -1), ((6, 2), -1), ((3, 7), -1), ((4, 10, 8), -1), ((9, 0), -1), ((7, 2), 3), ((1, 7, 5), 1)]
     else:
         kinds = [0, 1, 2, 3, 4, 5, 6, 7, 8, 9, 10]
-        seqs = [(a,) for a in kinds] + [(a, b) for a in kinds for b in kinds]
-        seqs += [(0, 7, 1), (5, 7, 0), (6, 7, 6), (7, 7, 2), (2, 6, 5), (10, 3, 6), (4, 8, 9), (1, 5, 10), (6, 6, 6), (3, 0, 7), (7, 0, 7), (8, 7, 4)]
-        seqs += [(1, 6, 7, 2), (0, 5, 6, 3), (7, 2, 7, 0), (6, 10, 4, 7), (9, 8, 1, 0), (5, 5, 5, 5), (2, 7, 6, 7)]
-    for sq in seqs:
+        base = [(a,) for a in kinds] + [(a, b) for a in kinds for b in kinds]
+        base += [(0, 7, 1), (5, 7, 0), (6, 7, 6), (7, 7, 2), (2, 6, 5), (10, 3, 6), (4, 8, 9), (1, 5, 10), (6, 6, 6), (3, 0, 7), (7, 0, 7), (8, 7, 4), (1, 7, 5)]
+        base += [(1, 6, 7, 2), (0, 5, 6, 3), (7, 2, 7, 0), (6, 10, 4, 7), (9, 8, 1, 0), (2, 7, 0, 7)]
+        seqs = []
+        for sq in base:
+            if 7 not in sq:
+                seqs.append((sq, -1))
+            else:
+                # a positional write followed by appends makes the string length symbolic (memory): enumerate the offset instead
+                last_is_pput_only = all(x != 7 for x in sq[:-1])
+                if last_is_pput_only or sq in ((5, 7, 0), (1, 6, 7, 2)):
+                    seqs.append((sq, -1))
+                for po in range(5):
+                    if po in (1, 4) and any(sq[i] == 7 and i > 0 and sq[i - 1] == 6 for i in range(len(sq))):
+                        continue  # the positional write would hit the terminator of the C string just written (excluded by the harness)
+                    seqs.append((sq, po))
+    for sq, po in seqs:
         defs = {'K%d' % i: (sq[i] if i < len(sq) else -1) for i in range(4)}
-        qs.append(Q('seq_' + '_'.join(str(x) for x in sq), 'h_seq.c', defs, unwind=44, timeout=600,
-                    desc='sequence of writer ops %s then matching reads: str() == byte model, values/cursor/eof' % (sq,), bounds='kinds fixed, all values/lengths/offsets symbolic, buffer <= 40 bytes'))
+        defs['PO'] = po
+        qs.append(Q('seq_' + '_'.join(str(x) for x in sq) + ('' if po < 0 else '_po%d' % po), 'h_seq.c', defs, unwind=44, timeout=600,
+                    desc='sequence of writer ops %s then matching reads (%s): str() == byte model, values/cursor/eof' % (sq, 'positional offset symbolic' if po < 0 else 'positional offset cell %d' % po),
+                    bounds='kinds fixed, all values/lengths%s symbolic, buffer <= 40 bytes' % ('/offsets' if po < 0 else '')))
     return qs
